@@ -1182,6 +1182,11 @@ def _features(prog, verdict, info):
     return ('accept', 'n=%d' % min(n, 8))
 
 
+_EXEC_COUNT = [0]
+_SYM_NAME_RE = re.compile(r'(?<![A-Za-z0-9_])([XYZWVU])(\d+[a-z]?)(?![A-Za-z0-9_])')
+_NON_ASCII = ['é', 'ö', 'π', '名', 'Ж', 'ß', '٣']
+
+
 def execute_program(prog, ctx):
     """-> dict(status='ok'|'unspec'|'inconclusive', verdict=, viol=[...], sample=...)"""
     ses = ctx.get_session()
@@ -1196,6 +1201,15 @@ def execute_program(prog, ctx):
         return out
     line_map = []
     text = M.render(prog, probe.PROBE, rec, info['neg'] if verdict == 'accept' else None, line_map)
+    # every fourth program: the user-defined symbols get names with letters and digits outside ASCII (a symbol name is
+    # a word of letters, digits and `_`; the names play no part in what the program denotes)
+    _EXEC_COUNT[0] += 1
+    if _EXEC_COUNT[0] % 4 == 0:
+        renamed = _SYM_NAME_RE.sub(lambda m: m.group(1) + _NON_ASCII[(ord(m.group(1)) + len(m.group(2))) % len(_NON_ASCII)]
+                                   + m.group(2), text)
+        if renamed != text:
+            ctx.count('c08.programs_with_non_ascii_symbol_names')
+            text = renamed
     case_file = os.path.join(d, 't.case')
     with open(case_file, 'w', encoding='utf-8', newline='') as f:
         f.write(text)
